@@ -541,6 +541,8 @@ def mk_method(style, mt, method, step, rc):
         text = str(v)
         if not W.reach("end"):
             return False
+        if len(text) >= 2 and not W.reach("len2"):
+            return False
         if method == "parent_coordinates_consistent":
             # (seqid, start, stop, strand) names the displayed segment
             if style == "old":
@@ -551,13 +553,11 @@ def mk_method(style, mt, method, step, rc):
                 return True
             seg = p[ps:pe]
             if strand in (-1, "-"):
-                seg = seg.rc()
+                seg = seg.rc() if mt != "protein" else seg[::-1]
             seg = str(seg)
             astep = abs(step)
             return sid == "s" and seg[::astep] == text
         fresh = _mk_seq(style, mt, text)
-        if len(text) >= 2 and not W.reach("len2"):
-            return False
         return _run(fn, v) == _run(fn, fresh)
 
     return check
@@ -596,9 +596,10 @@ ASSUMPTIONS = [
     "symbolic str content is never inspected in O1-O4 (only its length); characters are covered by O5 on concrete content",
     "seqid fixed to 'x'/'s'",
 ]
-OUTSIDE = ["|steps| beyond the shard bound", "array_value / bytes_value realisations (numpy, C level)", "non-ASCII content", "symbolic sequence content in method comparison (CrossHair asserts internally on moltype.complement of a symbolic str)"]
+OUTSIDE = ["new-style to_rna/to_dna/to_moltype/to_array (numpy.array(self) is dispatched at C level; under CrossHair tracing it takes another route, so counterexamples there do not replay: excluded)", "|steps| beyond the shard bound", "array_value / bytes_value realisations (numpy, C level)", "non-ASCII content", "symbolic sequence content in method comparison (CrossHair asserts internally on moltype.complement of a symbolic str)"]
 TRUSTED = ["the 12-line pyidx model of slice.indices (validated against CPython on a grid each run)"]
 
+_NEW_NUMPY_METHODS = {"to_rna", "to_dna", "to_moltype", "to_array"}  # numpy.array(self) at C level: behaves differently under CrossHair tracing (probed), not decidable
 _Q_METHODS = ["str", "len", "iter", "to_rna", "to_dna", "to_moltype", "count", "rc", "complement", "resolved_ambiguities", "iter_kmers",
               "get_in_motif_size", "is_degenerate", "replace", "add", "contains", "parent_coordinates_consistent", "getitem_rc", "degap"]
 
@@ -631,6 +632,8 @@ def obligations(tier):
             for method in (METHODS if T else _Q_METHODS):
                 fn, mts = METHODS[method]
                 if mt not in mts.split():
+                    continue
+                if style == "new" and method in _NEW_NUMPY_METHODS:
                     continue
                 for step in steps:
                     if mt == "protein" and step < 0 and style == "old":
